@@ -149,6 +149,9 @@ func (fc *FnCtx) assign(st *State, lhs ast.Expr, v Val) {
 		v = fc.convertAssign(st, v, sel.Type())
 		fc.bumpCall(st, l.Sel.Name) // `counts <field>`: assignments to a field are counted like calls
 		if r := fc.root(); r == fc && r.ct != nil {
+			if len(r.ct.WritePre[l.Sel.Name]) > 0 {
+				fc.hit("writepre " + l.Sel.Name)
+			}
 			for i, cl := range r.ct.WritePre[l.Sel.Name] {
 				env := &SpecEnv{fc: fc, st: st, old: r.entry, scope: map[string]Val{"$value": v}, oldScope: fc.paramsEntry, pkg: fc.ctPkg(), useVars: true}
 				g := fc.safeSpec(env, cl.E, cl.Text)
@@ -221,6 +224,7 @@ func (fc *FnCtx) assign(st *State, lhs ast.Expr, v Val) {
 					mapName = id.Name
 				}
 				if mapName != "" && len(r.ct.StorePre[mapName]) > 0 {
+					fc.hit("storepre " + mapName)
 					dk, ds, _, _ := fc.mapKeys(u)
 					present := Val{sel(sel(fc.comp(st, dk, ds), m.T), k.T), types.Typ[types.Bool]}
 					for i, cl := range r.ct.StorePre[mapName] {
@@ -1379,6 +1383,9 @@ func (fc *FnCtx) chanSend(st *State, ch Val, v Val, s *ast.SendStmt) []Outcome {
 		}
 	}
 	if r := fc.root(); r.ct != nil && s != nil {
+		if len(r.ct.SendPre[exprText(s.Chan)]) > 0 {
+			fc.hit("sendpre " + exprText(s.Chan))
+		}
 		for i, cl := range r.ct.SendPre[exprText(s.Chan)] {
 			env := &SpecEnv{fc: fc, st: st, old: r.entry, scope: map[string]Val{"$value": v}, oldScope: fc.paramsEntry, pkg: fc.ctPkg(), useVars: true, pos: s.Pos()}
 			g := fc.safeSpec(env, cl.E, cl.Text)
